@@ -3,6 +3,7 @@ import bisect
 import itertools
 import re
 import common as C
+from pathlib import Path
 
 PROPERTIES = ["C01"]
 MANIFEST = {
@@ -16,6 +17,90 @@ MANIFEST = {
 PROPS = ["Nstd.Avl.Props", "Nstd.Avl.PropsK"]
 LEAN_TARGETS = PROPS + ["drv_avl"]
 DRIVER = "drv_avl"
+
+# ---- translator: pool constants of the current sources -> lean/Nstd/Generated/AvlConst.lean -------------------
+GEN_OUT = C.LEAN / "Nstd" / "Generated" / "AvlConst.lean"
+HEADERS = {"Map": "include/nstd/Map.hpp", "Multi": "include/nstd/MultiMap.hpp"}
+
+
+def _strip_cxx(src):
+    src = re.sub(r"/\*.*?\*/", " ", src, flags=re.S)
+    return re.sub(r"//[^\n]*", "", src)
+
+
+def _resolve(tok, src):
+    """integer value of a literal or of a constant named in the header (enum member / static const / #define)"""
+    if re.fullmatch(r"\d+", tok):
+        return int(tok)
+    for rx in (r"enum\s*\w*\s*\{[^}]*\b" + tok + r"\s*=\s*(\d+)", r"static\s+const\s+\w+\s+" + tok + r"\s*=\s*(\d+)\s*;",
+               r"#\s*define\s+" + tok + r"\s+(\d+)"):
+        m = re.search(rx, src)
+        if m:
+            return int(m.group(1))
+    return None
+
+
+def read_constants(repo=None):
+    """{'Map': items per block, 'Multi': ...}: the `N` of `new char[sizeof(ItemBlock) + sizeof(Item) * N]`; the loop that
+    chains the new items onto the free list (`* end = i + N`) must use the same value."""
+    repo = Path(repo or C.REPO)
+    res = {}
+    for tag, rel in HEADERS.items():
+        src = _strip_cxx((repo / rel).read_text())
+        al = re.findall(r"new\s+char\s*\[\s*sizeof\s*\(\s*ItemBlock\s*\)\s*\+\s*sizeof\s*\(\s*Item\s*\)\s*\*\s*(\w+)\s*\]", src)
+        lp = re.findall(r"\*\s*end\s*=\s*i\s*\+\s*(\w+)\s*;", src)
+        if len(al) != 1 or len(lp) != 1:
+            raise ValueError(f"{rel}: block allocation {al} / fill loop bound {lp}: expected exactly one of each")
+        a, l = _resolve(al[0], src), _resolve(lp[0], src)
+        if a is None or l is None:
+            raise ValueError(f"{rel}: cannot evaluate items per block ({al[0]} / {lp[0]})")
+        if a != l:
+            raise ValueError(f"{rel}: the block is allocated for {a} items but the free-list fill loop covers {l}")
+        if a < 1:
+            raise ValueError(f"{rel}: {a} items per block")
+        res[tag] = a
+    return res
+
+
+def translate(repo=None):
+    try:
+        k = read_constants(repo)
+    except (OSError, ValueError) as e:
+        return False, str(e)
+    text = ("/- generated by tools/areas/avl.py (translate) from include/nstd/{Map,MultiMap}.hpp - do not edit -/\n"
+            "namespace Nstd.Generated.Avl\n\n"
+            "/-- `new char[sizeof(ItemBlock) + sizeof(Item) * N]` and `end = i + N` in `Map::insert` -/\n"
+            f"def itemsPerBlockMap : Nat := {k['Map']}\n"
+            "/-- the same in `MultiMap::insert` -/\n"
+            f"def itemsPerBlockMulti : Nat := {k['Multi']}\n\n"
+            "end Nstd.Generated.Avl\n")
+    GEN_OUT.parent.mkdir(parents=True, exist_ok=True)
+    if not GEN_OUT.exists() or GEN_OUT.read_text() != text:
+        GEN_OUT.write_text(text)
+    return True, f"items per block Map:{k['Map']} MultiMap:{k['Multi']}"
+
+
+def gen(ctx):
+    ok, msg = translate()
+    if ctx is not None:
+        ctx.cov.setdefault("translated", msg)
+    return ok, msg
+
+
+def setup():
+    ok, msg = translate()
+    if not ok:
+        print("avl translate:", msg)
+
+
+def ipb_flags():
+    """compile flags that tell the harness the items-per-block constants (canonical item ids of `wb` lines)"""
+    try:
+        k = read_constants()
+    except (OSError, ValueError):
+        return []
+    return [f"-DAVL_IPB_MAP={k['Map']}", f"-DAVL_IPB_MULTI={k['Multi']}"]
+
 
 # ---- the bound of the property, evaluated without floating point ----------------------------------
 _bound = {}
@@ -122,7 +207,7 @@ def _ret_pos(line):
 
 
 def reference(hist, impl_out):
-    cs = [Ref(False), Ref(True), Ref(False)]
+    cs = [Ref(False), Ref(True), Ref(False), Ref(True)]
     lo, hi, lvl = 0, -1, 2
     out = []
     for n, line in enumerate(hist):
@@ -200,7 +285,7 @@ def reference(hist, impl_out):
             ret = f"v={c.vals[0] if op == 'front' else c.vals[-1]}"
         elif op in ("assign", "insall", "copy"):
             j = a[0]
-            if j == ci or j not in (0, 2) or ci == 1:
+            if j == ci or j not in (0, 1, 2, 3) or (j & 1) != (ci & 1) or (op == "insall" and c.multi):
                 out.append("bad-op")
                 continue
             if op in ("assign", "copy"):
@@ -278,6 +363,10 @@ def shapes_scope(nmax, nfull, rng=None, sample_n=None, nperms=0):
                         fol.append([f"{c} count {k}"])
                     for p in range(n + 1):
                         fol.append([f"{c} insat {p} {k} 99"])
+                # copy construction / assignment into the second container of the same kind (Map and MultiMap)
+                fol += [[f"{c ^ 2} copy {c}"], [f"{c ^ 2} ins 4 1", f"{c ^ 2} ins 2 2", f"{c ^ 2} assign {c}"]]
+                if c == 0:
+                    fol.append([f"2 ins 4 1", f"2 ins 2 2", "2 insall 0"])
                 if n:
                     fol += [[f"{c} rmfront"], [f"{c} rmback"], [f"{c} front"], [f"{c} back"], [f"{c} clear", f"{c} ins 4 1"]]
                 if n <= nfull:
@@ -322,11 +411,11 @@ def gen_random(rng, length, nkeys, lvl=2, wb=False):
     sizes only (a position may still be out of range: both sides must then say bad-op)"""
     lo = rng.choice([-3, 0, 0, 1])
     h = [f"dom {lo - 1} {lo + nkeys}", f"obs {lvl}"]
-    size = [0, 0, 0]
+    size = [0, 0, 0, 0]
     val = 0
     wts = rng.choice([(30, 25, 10, 10, 4, 4), (20, 15, 20, 20, 6, 6), (40, 30, 5, 5, 2, 2)])
     for _ in range(length):
-        c = rng.choice([0, 0, 1, 1, 1, 2])
+        c = rng.choice([0, 0, 1, 1, 1, 2, 3])
         k = lo + rng.randrange(nkeys)
         val += 1
         r = rng.randrange(sum(wts) + 22)
@@ -358,15 +447,16 @@ def gen_random(rng, length, nkeys, lvl=2, wb=False):
             elif r < 16: h.append(f"{c} back")
             elif r < 17: h.append(f"{c} clear"); size[c] = 0
             elif r < 19:
-                if c != 1:
-                    h.append(f"{c} {rng.choice(['assign', 'assign', 'copy'])} {2 - c}"); size[c] = size[2 - c]
+                h.append(f"{c} {rng.choice(['assign', 'assign', 'copy'])} {c ^ 2}"); size[c] = size[c ^ 2]
             elif r < 21:
-                if c != 1:
-                    h.append(f"{c} insall {2 - c}"); size[c] += size[2 - c]
+                if c & 1:
+                    h.append(f"{c} {rng.choice(['assign', 'copy'])} {c ^ 2}"); size[c] = size[c ^ 2]
+                else:
+                    h.append(f"{c} insall {c ^ 2}"); size[c] += size[c ^ 2]
             else:
                 h.append(f"{c} wb" if wb else f"{c} nop")
     if wb:
-        h += ["0 wb", "1 wb", "2 wb"]
+        h += ["0 wb", "1 wb", "2 wb", "3 wb"]
     return h
 
 
@@ -433,7 +523,7 @@ def histories_for(ctx):
         f"corpus ({ncorpus}) + exhaustive short scope: all op sequences (plain/hinted insert at every valid position, remove by key / "
         f"iterator, clear) of length <= {4 if quick else 5} over keys 0..2, Map and MultiMap ({len(sh)} histories) + exhaustive shape scope: "
         f"every insertion order of n <= {5 if quick else 6} keys{'' if quick else ' (and 1500 random orders of 7 keys)'} followed by every single removal / plain / hinted insert of every key at "
-        f"every iterator position, count, front/back, and every pair of follow-ups for n <= {4 if quick else 5} ({len(shp)} histories) + {len(rnd)} random histories of 10..400 ops over 1..64 keys on Map, MultiMap and a second "
+        f"every iterator position, count, front/back, copy construction / assignment into a second container, and every pair of follow-ups for n <= {4 if quick else 5} ({len(shp)} histories) + {len(rnd)} random histories of 10..400 ops over 1..64 keys on Map, MultiMap and a second "
         f"Map (copy, bulk insert) + {len(big)} ascending/descending/zig-zag/random/hinted runs of {sizes} keys with finds; "
         "distinct_nontrivial = distinct (op-kind set, final observation) among histories ending with >= 3 entries")
     ctx.cov["exhaustive"] = False
@@ -452,14 +542,14 @@ def check(ctx):
         "allocation never fails",
         "iterators handed to insert/remove belong to the container and are valid (the generators only produce positions 0..size)",
         "removeFront/removeBack/front/back are called on non-empty containers only (API precondition; harness and model reject them otherwise)",
-        "self-assignment, self bulk insert and copies of MultiMap are outside this property's generators (lifetime defects D2/D5 belong to C04)",
+        "self-assignment and self bulk insert are outside this property's generators (C04); copies are made between two different containers of the same kind",
     ]
     ctx.cov["open_statements"] = [
         "arbitrary key types: transfer theorem + headline statements (find_cost_log, height_log, sortedness) proved in PropsK.lean; the refinement to the sorted-list specification is stated for Int keys and carries over through G.transfer / G.transfer_out, it is not restated over K",
         "item identities / free-list order: invariant proved (ids distinct, disjoint from the free list); exact ids compared with the real code only in the thorough tier (white-box dump)",
     ]
-    proof_ok = C.proof_stage(ctx, PROPS, [DRIVER], leanchecker=(ctx.tier == "thorough"))
-    harness = C.build_harness(ctx, "avl", SOURCES)
+    proof_ok = C.proof_stage(ctx, PROPS, [DRIVER], gen=gen, leanchecker=(ctx.tier == "thorough"))
+    harness = C.build_harness(ctx, "avl", SOURCES, extra_flags=ipb_flags())
     if harness is None or not C.driver_path(DRIVER).exists():
         return
     try:
@@ -488,7 +578,7 @@ def check(ctx):
 
 def replay(ctx, path):
     h = C.parse_replay(path)
-    harness = C.build_harness(ctx, "avl", SOURCES)
+    harness = C.build_harness(ctx, "avl", SOURCES, extra_flags=ipb_flags())
     C.lake_build([DRIVER])
     diffs = C.differential(ctx, harness, C.driver_path(DRIVER), [h], reference, C.default_eq)
     for d in diffs:
